@@ -30,7 +30,7 @@ ASSUMPTIONS = ["port names and hardware addresses are unique among the ports "
 REQUIRED = ["port_histories", "views_compared", "renames", "deletes",
             "readds", "stale_name_lookups", "stats_histories",
             "multipart_events", "interleaved_histories", "sequential_pairs",
-            "features_refreshes"]
+            "features_refreshes", "early_port_status"]
 TIMEOUT = {"quick": 900, "thorough": 7200}
 
 REASON_ADD, REASON_DELETE, REASON_MODIFY = 0, 1, 2
@@ -101,13 +101,36 @@ def run_ports (case, rep):
   rep.count("port_histories")
   peer = ctl.Peer(of_01)
   initial = [ctl.phy_port(n, name=nm, hw=hw) for n, nm, hw in case["initial"]]
-  peer.handshake(case["dpid"], initial)
+  # port-status messages that arrive during the handshake (after the features
+  # reply, before the barrier reply) are part of "the notifications applied in
+  # order" just as the later ones are
+  early_raw = b""
+  for (reason, n, nm, hw, cfg) in case.get("early", []):
+    early_raw += ofwire.enc_message("port_status", dict(
+      xid=0, reason=reason, desc=ctl.phy_port(n, name=nm, hw=hw, config=cfg,
+                                              state=1 if cfg & 1 else 0)))
+  peer.handshake(case["dpid"], initial, early=early_raw)
   con = peer.con
   original = {p["port_no"]: dict(p) for p in initial}
   model = {p["port_no"]: dict(p) for p in initial}
   former_names = set(); former_hw = set()
   nt = False
-  if not check_view(fire, rep, con.ports, model, "current view", set(), set()):
+  for (reason, n, nm, hw, cfg) in case.get("early", []):
+    rep.count("early_port_status"); nt = True
+    if reason == REASON_DELETE:
+      if n in model:
+        former_names.add(model[n]["name"]); former_hw.add(model[n]["hw_addr"])
+        del model[n]
+    else:
+      if n in model:
+        if model[n]["name"] != nm: former_names.add(model[n]["name"])
+        if model[n]["hw_addr"] != hw: former_hw.add(model[n]["hw_addr"])
+      model[n] = ctl.phy_port(n, name=nm, hw=hw, config=cfg,
+                              state=1 if cfg & 1 else 0)
+  former_names -= set(p["name"] for p in model.values())
+  former_hw -= set(p["hw_addr"] for p in model.values())
+  if not check_view(fire, rep, con.ports, model, "current view",
+                    former_names, former_hw):
     return True
   events = []
   con.addListenerByName("PortStatus", lambda e: events.append(
@@ -320,6 +343,20 @@ def gen_ports (rng, n, maxlen):
       initial.append((no, nm, hw))
     cur = {no: (nm, hw) for no, nm, hw in initial}
     steps = []
+    early = []
+    if rng.random() < 0.35:
+      for _ in range(rng.randrange(1, 4)):
+        no = rng.choice(nums)
+        r = rng.random()
+        if no in cur and r < 0.4:
+          nm, hw = cur.pop(no)
+          early.append([REASON_DELETE, no, nm, hw, 0])
+        else:
+          if no in cur and r < 0.7: nm, _ = fresh(no); hw = cur[no][1]
+          else: nm, hw = fresh(no)
+          early.append([REASON_ADD if no not in cur else REASON_MODIFY, no, nm, hw,
+                        rng.choice([0, 1])])
+          cur[no] = (nm, hw)
     for _ in range(rng.randrange(1, maxlen + 1)):
       no = rng.choice(nums)
       r = rng.random()
@@ -350,7 +387,9 @@ def gen_ports (rng, n, maxlen):
         if rng.random() < 0.1: reason = REASON_MODIFY
         cur[no] = (nm, hw)
         steps.append([reason, no, nm, hw, rng.choice([0, 1, 0x10])])
-    yield dict(kind="ports", dpid=100 + ci % 7, initial=initial, steps=steps)
+    case = dict(kind="ports", dpid=100 + ci % 7, initial=initial, steps=steps)
+    if early: case["early"] = early
+    yield case
 
 
 def split (ids, k, rng):
@@ -424,8 +463,8 @@ def plan (tier, seed):
   if tier == "quick":
     return ([dict(mode="ports", n=500, maxlen=12, sub=i) for i in range(8)] +
             [dict(mode="stats", n=500, sub=i) for i in range(8)])
-  return ([dict(mode="ports", n=25000, maxlen=12, sub=i) for i in range(16)] +
-          [dict(mode="stats", n=25000, sub=i) for i in range(16)])
+  return ([dict(mode="ports", n=60000, maxlen=14, sub=i) for i in range(32)] +
+          [dict(mode="stats", n=60000, sub=i) for i in range(32)])
 
 
 def run (spec, rep):
